@@ -18,6 +18,16 @@ type HE struct {
 	ID int
 }
 
+// HX is a heap element whose identity is FRESH per push and of a type the fingerprint drops (the
+// heap code can only see P through the comparator): with one priority the state is (length,
+// capacity) only, every element is distinguishable from every other, and sizes of 40-70 are cheap.
+type HX struct {
+	P  int
+	ID Rep
+}
+
+func (e HX) String() string { return fmt.Sprintf("%d#%d", e.P, int(e.ID)) }
+
 func (e HE) String() string { return fmt.Sprintf("%d.%d", e.P, e.ID) }
 
 type heapAPI[T comparable] struct {
@@ -59,6 +69,8 @@ type HeapSys[T comparable] struct {
 	// the state space linear in the size while bulk pushes of small values onto a big heap — where the
 	// heapify / sift bounds matter — stay in the alphabet.
 	Skew int
+	// FreshID (HX elements): gives the element pushed by the n-th push its own identity
+	FreshID func(base T, n int) T
 }
 
 func (s *HeapSys[T]) Name() string    { return s.Kind + "/" + s.CmpN + s.Label }
@@ -94,9 +106,21 @@ func wrapPQ[T comparable](c *priorityqueue.Queue[T]) *heapAPI[T] {
 }
 
 type heapBox[T comparable] struct {
-	sys *HeapSys[T]
-	a   *heapAPI[T]
-	ref []T // multiset
+	sys  *HeapSys[T]
+	a    *heapAPI[T]
+	ref  []T // multiset
+	next int // fresh identities handed out so far
+}
+
+// elems resolves universe indices into elements (with fresh identities when the system asks for them)
+func (b *heapBox[T]) elems(t []int) []T {
+	vs := b.idxTuple(t)
+	if b.sys.FreshID != nil {
+		for i := range vs {
+			vs[i] = b.sys.FreshID(vs[i], b.next+1+i)
+		}
+	}
+	return vs
 }
 
 func (b *heapBox[T]) idxTuple(t []int) []T {
@@ -171,9 +195,9 @@ func (b *heapBox[T]) jsonText(ji int) []byte {
 func (b *heapBox[T]) Describe(o Op) string {
 	switch o.N {
 	case "push":
-		return fmt.Sprintf("%s(%v)", b.a.pushN, b.sys.U[o.A[0]])
+		return fmt.Sprintf("%s(%v)", b.a.pushN, b.elems([]int{o.A[0]})[0])
 	case "bulk":
-		return fmt.Sprintf("Push(%v...)", b.idxTuple(b.sys.Bulk[o.A[0]]))
+		return fmt.Sprintf("Push(%v...)", b.elems(b.sys.Bulk[o.A[0]]))
 	case "pop":
 		return b.a.popN + "()"
 	case "peek":
@@ -229,7 +253,8 @@ func (b *heapBox[T]) Do(o Op) *Viol {
 	var zero T
 	switch o.N {
 	case "push":
-		v := b.sys.U[o.A[0]]
+		v := b.elems([]int{o.A[0]})[0]
+		b.next++
 		arg := argSlice([]T{v})
 		b.a.push(arg...)
 		if v := scribbleCheck(arg, b.sys.Poison, b.a.values, b.a.name, o.N); v != nil {
@@ -237,7 +262,8 @@ func (b *heapBox[T]) Do(o Op) *Viol {
 		}
 		b.ref = append(append([]T{}, b.ref...), v)
 	case "bulk":
-		vs := b.idxTuple(b.sys.Bulk[o.A[0]])
+		vs := b.elems(b.sys.Bulk[o.A[0]])
+		b.next += len(vs)
 		arg := argSlice(vs)
 		b.a.push(arg...)
 		if v := scribbleCheck(arg, b.sys.Poison, b.a.values, b.a.name, o.N); v != nil {
@@ -421,7 +447,11 @@ func (b *heapBox[T]) Readers() []Reader {
 		{"Iterate", func() string { return iterateAll(b.a.iter()) }},
 	}
 }
-func (b *heapBox[T]) Fresh() Box            { return b.sys.newBox() }
+func (b *heapBox[T]) Fresh() Box {
+	nb := b.sys.newBox()
+	nb.next = b.next
+	return nb
+}
 func (b *heapBox[T]) JSONKind() string      { return "array" }
 func (b *heapBox[T]) Unordered() bool       { return false }
 func (b *heapBox[T]) ContainerName() string { return b.a.name }
@@ -504,5 +534,22 @@ func genHeapSys[T comparable](kind, cmpN string, n int, u []T, poison T, cmp fun
 			gen(nil, l, &s.JSONs)
 		}
 	}
+	return s
+}
+
+// hxSys: heaps of HX elements (fresh identities): pmax priorities, optional skew.
+func hxSys(kind, cmpN string, n, pmax, skew int) *HeapSys[HX] {
+	var u []HX
+	for p := 0; p < pmax; p++ {
+		u = append(u, HX{P: p})
+	}
+	cmp := func(a, b HX) int { return a.P - b.P }
+	if cmpN == "max" {
+		cmp = func(a, b HX) int { return (b.P - a.P) * 3 }
+	}
+	s := genHeapSys(kind, cmpN, n, u, HX{-9, -9}, cmp, pmax, func(p, pos int) int { return p - 1 }, 0)
+	s.JSONs = nil
+	s.Skew = skew
+	s.FreshID = func(base HX, k int) HX { base.ID = Rep(k); return base }
 	return s
 }
